@@ -86,6 +86,10 @@ def jobs(tier):
         for dmg in (["flip", "intact", "intact"], ["intact", "missing", "intact"], ["intact", "intact", "trunc"]):
             out.append(("v%d.nested3~dotdot.P16384.%s" % (version, "-".join(k[0] for k in dmg)), "job_recheck",
                         dict(prop="C04", version=version, shape="nested3~dotdot", P=16384, K=1, dmg=dmg, source="ref")))
+    for source in ("ref", "own"):       # piece-aligned v1, two padding entries of the same length (equal names .pad/N)
+        out.append(("v1.nested3.P16384.aligned.%s.equal-gaps" % source, "job_recheck",
+                    dict(prop="C04", version=1, shape="nested3", P=16384, K=2, dmg=["intact", "intact", "flip"], source=source, aligned=True,
+                         pinned={"s0": 16384 + 100, "s1": 100, "s2": 16384 + 7})))
     out.extend(rk.matrix_rows(tier, "C04"))
     # a long-lived Checker: verified while intact, content damaged afterwards, verified again on the same object
     for version in (1, 2, 3):
